@@ -416,6 +416,12 @@ fn create_pkg_length(len: usize, include_self: bool) -> Vec<u8> {
 }
 
 /// EISAName object. 'value' means the encoded u32 EisaIdString.
+/// Verification hook: exposes the private PkgLength encoder unchanged.
+#[cfg(rust_vmm_acpi_tables_verif)]
+pub fn verif_create_pkg_length(len: usize, include_self: bool) -> Vec<u8> {
+    create_pkg_length(len, include_self)
+}
+
 pub struct EISAName {
     value: DWord,
 }
